@@ -106,6 +106,20 @@ def gen_recipe(rng: Rng, tier: str, idx: int) -> dict:
             e["ext_file"] = rng.choice(["src0.bin", "src1.bin", "sub/src2.bin", "sub/@DATA@"])
             e["ext_pad"] = rng.choice([0, 0, 3, 64])
         inits.append(e)
+    # a model assembled from several exports: two (or three) already-external initializers that live in DIFFERENT directories
+    # under the SAME relative file name, at the same offset, with the same dtype, shape and length — and other contents
+    tw = rng.sub("ext-twins")
+    if allow_ext and tw.chance(0.3):
+        dtype = tw.choice(["FLOAT", "FLOAT", "FLOAT16", "INT64", "UINT8"])
+        nelem = tw.choice([100, 300, 1024, 16])
+        pad = tw.choice([0, 0, 64])
+        where = tw.weighted(WHERE) if allow_sub else "main"
+        for d in ["enc", "dec", "aux"][:tw.choice([2, 2, 3])]:
+            inits.append({"name": f"{d}.norm.weight", "dtype": dtype, "shape": [nelem], "kind": "ext",
+                          "where": where if tw.chance(0.7) else "main", "fill": tw.u64() & 0xFFFFFFFF,
+                          "as_input": False, "used": tw.chance(0.7), "as_output": False, "meta": False,
+                          "ext_file": f"{d}/weights.bin", "ext_pad": pad})
+        n = len(inits)
     # one tensor object shared by two initializers
     if n >= 2 and rng.chance(0.15):
         j = rng.below(n - 1)
